@@ -12,6 +12,7 @@ import (
 	"fmt"
 	"go/types"
 	"os"
+	"sort"
 	"strings"
 
 	"golang.org/x/tools/go/ssa"
@@ -65,6 +66,20 @@ func cmdLock(args []string) int {
 		}
 		e.Locals = namedLocals(fn)
 		lock[lockKeyOf(fn)] = e
+	}
+	// the named functions and methods every package with contracts had when the lock was written: a contract-less function
+	// that is not in this list was introduced by a later edit (see soleCallee)
+	pkgsWithContracts := map[string]bool{}
+	for _, c := range prog.Contracts {
+		pkgsWithContracts[c.Pkg] = true
+	}
+	for pkg := range pkgsWithContracts {
+		var names []string
+		for _, fn := range prog.pkgFunctions(pkg) {
+			names = append(names, relName(fn))
+		}
+		sort.Strings(names)
+		lock["#functions "+pkg] = lockEntry{Params: names}
 	}
 	data, _ := json.MarshalIndent(lock, "", " ")
 	if err := os.WriteFile(*out, data, 0o644); err != nil {
@@ -203,4 +218,49 @@ func (ex *Exec) renamedTo(fn *ssa.Function, name string) (cur string, ord int, i
 		}
 	}
 	return now[cand].Name, o, false, true
+}
+
+// pkgFunctions: the package-level functions and the methods of the package's named types (no closures, no wrappers).
+func (p *Program) pkgFunctions(pkg string) []*ssa.Function {
+	sp := p.SPkgs[pkg]
+	if sp == nil {
+		return nil
+	}
+	seen := map[*ssa.Function]bool{}
+	var out []*ssa.Function
+	add := func(f *ssa.Function) {
+		if f != nil && f.Pkg == sp && f.Synthetic == "" && !seen[f] {
+			seen[f] = true
+			out = append(out, f)
+		}
+	}
+	for _, m := range sp.Members {
+		switch x := m.(type) {
+		case *ssa.Function:
+			add(x)
+		case *ssa.Type:
+			for _, recv := range []types.Type{x.Type(), types.NewPointer(x.Type())} {
+				ms := p.SSA.MethodSets.MethodSet(recv)
+				for i := 0; i < ms.Len(); i++ {
+					add(p.SSA.MethodValue(ms.At(i)))
+				}
+			}
+		}
+	}
+	return out
+}
+
+// isNewFunction: fn is a named function or method that did not exist when the lock was written (only meaningful for
+// packages the lock lists).
+func (p *Program) isNewFunction(fn *ssa.Function) bool {
+	if fn == nil || fn.Parent() != nil || p.Lock == nil {
+		return false
+	}
+	e, ok := p.Lock["#functions "+funcPkgPath(fn)]
+	if !ok {
+		return false
+	}
+	n := relName(fn)
+	i := sort.SearchStrings(e.Params, n)
+	return !(i < len(e.Params) && e.Params[i] == n)
 }
